@@ -1,13 +1,14 @@
-import SqlProofs.DelimR.Driver
+import SqlProofs.DelimChild.Reindent.Driver
 import SqlProofs.Respell.Operator
 /-!
-# SqlProofs.DelimR.Cfg — the parent-level loop of `_group` keeps the frame and the children's invariant
+# SqlProofs.DelimChild.Reindent.Cfg — the parent-level loop of `_group` keeps the frame and the children's invariant
 
 `CfgD u cfg` collects what the argument needs of a configuration; it holds of the ten aligned configurations
 (`group_assignment` does nothing on statements without `:=`).
 -/
 namespace Sql
-namespace DC
+namespace DCR
+open DC
 
 variable {u : Text → Text}
 
@@ -98,5 +99,5 @@ theorem drvLoop_frame (hu : DelimU u) {cfg : DrvCfg} (hc : CfgD u cfg) {ph ph' :
   refine frame_step hu hle hf (by simpa [Nat.add_comm] using hpre) hops ?_
   intro hw; rw [hph] at hw; cases hw
 
-end DC
+end DCR
 end Sql
